@@ -2,6 +2,7 @@ package props
 
 import (
 	"fmt"
+	rio "github.com/pip-services3-gox/pip-services3-expressions-gox/io"
 	"strings"
 	"testing"
 
@@ -29,8 +30,34 @@ func checkC15Using(c c15Case, tokenize func(string, int, string) ([]tk, *evid.Fa
 	if f != nil {
 		return f
 	}
-	_, f = alignTokens(c.Tok, base, c.Opts, out)
-	return f
+	if _, f = alignTokens(c.Tok, base, c.Opts, out); f != nil {
+		return f
+	}
+	return c15Strings(c.Tok, c.Opts, c.Input, out)
+}
+
+// c15Strings: the string-list entry points are the same token stream, one string per token - a rewritten token
+// (an empty decoded literal, a merged blank) included.
+func c15Strings(kind string, opts int, input string, out []tk) *evid.Fail {
+	var strs, strs2 []string
+	if g := guard(func() {
+		t := newTokenizer(kind)
+		setOptions(t, opts)
+		strs = t.TokenizeBufferToStrings(input)
+		strs2 = t.TokenizeStreamToStrings(rio.NewStringScanner(input))
+	}); g != nil {
+		return g
+	}
+	vals := make([]string, len(out))
+	for i, o := range out {
+		vals[i] = o.V
+	}
+	for i, got := range [][]string{strs, strs2} {
+		if fmt.Sprintf("%q", got) != fmt.Sprintf("%q", vals) {
+			return evid.F("option:string-entry-differs", "%s tokenizer, options %s, input %q: tokens %s, string-list entry point #%d gives %q", kind, optNames(opts), input, tksString(out), i+1, got)
+		}
+	}
+	return nil
 }
 
 // affectedKinds returns how many of the enabled options find a token of their kind in the base stream.
@@ -142,6 +169,15 @@ func TestC15_ExhaustiveQuotes(t *testing.T) {
 		in := runesOf(parts)
 		for _, k := range tokKindsExt {
 			c15RunInput(rec, k, in, opts)
+			if len(parts) <= 5 {
+				for _, o := range opts[:2] {
+					if out, f := tokenizeWith(k, o, in); f == nil {
+						if ff := c15Strings(k, o, in, out); ff != nil {
+							rec.Fail(ff, c15Case{k, o, in})
+						}
+					}
+				}
+			}
 		}
 	})
 	requireLabels(t, rec, "tok:generic", "tok:expression", "tok:csv", "tok:mustache")
